@@ -440,3 +440,193 @@ func assignDominates(fd *ast.FuncDecl, as *ast.AssignStmt, call *ast.CallExpr) b
 	})
 	return found
 }
+
+// checkDedupeAgainstResult (R9): a method that grows a copy of its receiver element by element and skips the elements
+// that are "already there" must look for them in the copy it is growing. Looked up in the receiver, an element that
+// occurs twice in the argument list is appended twice: the tracked kind list then holds a kind twice, a later removal
+// takes out one of them, and the kind ends up both present and deleted.
+func checkDedupeAgainstResult(r *Run, gp *packages.Package) {
+	const rule = "C12-R10-dedupe-against-result"
+	info := gp.TypesInfo
+	n := 0
+	for _, fd := range kindsMethods(gp) {
+		recv := recvObj(gp, fd)
+		if recv == nil {
+			continue
+		}
+		// locals that start as the receiver
+		copies := map[types.Object]bool{}
+		ast.Inspect(fd.Body, func(x ast.Node) bool {
+			if as, ok := x.(*ast.AssignStmt); ok && len(as.Lhs) == len(as.Rhs) {
+				for i, rhs := range as.Rhs {
+					if id, ok := ast.Unparen(rhs).(*ast.Ident); ok && info.Uses[id] == recv {
+						if lid, ok := as.Lhs[i].(*ast.Ident); ok {
+							copies[info.ObjectOf(lid)] = true
+						}
+					}
+				}
+			}
+			return true
+		})
+		ast.Inspect(fd.Body, func(x ast.Node) bool {
+			var body *ast.BlockStmt
+			switch l := x.(type) {
+			case *ast.RangeStmt:
+				body = l.Body
+			case *ast.ForStmt:
+				body = l.Body
+			default:
+				return true
+			}
+			ast.Inspect(body, func(y ast.Node) bool {
+				as, ok := y.(*ast.AssignStmt)
+				if !ok || len(as.Lhs) != 1 || len(as.Rhs) != 1 {
+					return true
+				}
+				call, ok := ast.Unparen(as.Rhs[0]).(*ast.CallExpr)
+				if !ok || len(call.Args) < 2 {
+					return true
+				}
+				if f, ok := ast.Unparen(call.Fun).(*ast.Ident); !ok || f.Name != "append" {
+					return true
+				}
+				lid, ok := as.Lhs[0].(*ast.Ident)
+				if !ok || !copies[info.ObjectOf(lid)] {
+					return true
+				}
+				grown := info.ObjectOf(lid)
+				// the membership tests that control the append: calls of a method of the receiver's type
+				for _, l := range controlConds(body, as) {
+					ast.Inspect(l.Expr, func(z ast.Node) bool {
+						c, ok := z.(*ast.CallExpr)
+						if !ok {
+							return true
+						}
+						sel, ok := c.Fun.(*ast.SelectorExpr)
+						if !ok {
+							return true
+						}
+						on, ok := ast.Unparen(sel.X).(*ast.Ident)
+						if !ok {
+							return true
+						}
+						obj := info.Uses[on]
+						if obj != recv && obj != grown {
+							return true
+						}
+						n++
+						construct := "Kinds." + fd.Name.Name + ":" + sel.Sel.Name
+						if obj == grown {
+							r.Pass(rule, construct, c.Pos(), "the element is looked for in %s, the list being grown", on.Name)
+						} else {
+							r.Fail(rule, construct, c.Pos(), "Kinds.%s appends to %s the elements that %s.%s does not find, but looks for them in the receiver %s, which does not grow: an element named twice in one call is appended twice, the list holds the kind twice, a later removal takes out one and the kind is both present and deleted", fd.Name.Name, lid.Name, on.Name, sel.Sel.Name, on.Name)
+						}
+						return true
+					})
+				}
+				return true
+			})
+			return true
+		})
+	}
+	if n == 0 {
+		r.Note("C12-R10: no Kinds method grows a copy of its receiver under a membership test")
+	}
+}
+
+// checkEntityMergeDelegates (R11): merging an entity replays the other entity's property delta — its written keys and
+// its deleted keys — through Properties.Merge. The only reason not to is that the other entity has no Properties value
+// at all. A guard that also looks at how many properties the other entity currently holds skips the replay for an
+// entity whose properties were all deleted: its deletions are lost and the receiver keeps the stale keys.
+func checkEntityMergeDelegates(r *Run, gp *packages.Package) {
+	const rule = "C12-R11-entity-merge-delegates"
+	info := gp.TypesInfo
+	ptn, _ := gp.Types.Scope().Lookup("Properties").(*types.TypeName)
+	if ptn == nil {
+		return
+	}
+	n := 0
+	for _, f := range gp.Syntax {
+		for _, d := range f.Decls {
+			fd, ok := d.(*ast.FuncDecl)
+			if !ok || fd.Body == nil || fd.Recv == nil || fd.Name.Name != "Merge" {
+				continue
+			}
+			owner := recvTypeName(fd.Recv.List[0].Type)
+			if owner == "Properties" {
+				continue
+			}
+			// an entity: its struct has a field of type *Properties
+			otn, _ := gp.Types.Scope().Lookup(owner).(*types.TypeName)
+			if otn == nil {
+				continue
+			}
+			st, ok := otn.Type().Underlying().(*types.Struct)
+			if !ok {
+				continue
+			}
+			hasProps := false
+			for i := 0; i < st.NumFields(); i++ {
+				if namedOf(st.Field(i).Type()) != nil && namedOf(st.Field(i).Type()).Obj() == ptn {
+					hasProps = true
+				}
+			}
+			if !hasProps {
+				continue
+			}
+			n++
+			construct := owner + ".Merge"
+			inl := inlineFunc(gp, fd, 2)
+			var call *ast.CallExpr
+			ast.Inspect(inl.Body, func(x ast.Node) bool {
+				c, ok := x.(*ast.CallExpr)
+				if !ok {
+					return true
+				}
+				if fn := calleeOf(info, c); fn != nil && fn.Name() == "Merge" {
+					if sig, _ := fn.Type().(*types.Signature); sig != nil && sig.Recv() != nil && namedOf(sig.Recv().Type()) != nil && namedOf(sig.Recv().Type()).Obj() == ptn {
+						call = c
+					}
+				}
+				return true
+			})
+			if call == nil {
+				r.Fail(rule, construct, fd.Pos(), "%s.Merge does not hand the other entity's properties to Properties.Merge: the merged entity's written and deleted keys are not replayed on the receiver", owner)
+				continue
+			}
+			// every condition on the way to the call is a nil test
+			bad := ""
+			for _, l := range controlConds(inl.Body, call) {
+				var onlyNil func(e ast.Expr) bool
+				onlyNil = func(e ast.Expr) bool {
+					e = ast.Unparen(e)
+					switch t := e.(type) {
+					case *ast.UnaryExpr:
+						if t.Op == token.NOT {
+							return onlyNil(t.X)
+						}
+					case *ast.BinaryExpr:
+						switch t.Op {
+						case token.LAND, token.LOR:
+							return onlyNil(t.X) && onlyNil(t.Y)
+						case token.EQL, token.NEQ:
+							return isNilIdent(info, ast.Unparen(t.X)) || isNilIdent(info, ast.Unparen(t.Y))
+						}
+					}
+					return false
+				}
+				if !onlyNil(l.Expr) && bad == "" {
+					bad = exprString(r.Fset, l.Expr)
+				}
+			}
+			if bad == "" {
+				r.Pass(rule, construct, call.Pos(), "the other entity's properties are merged whenever it has a Properties value")
+			} else {
+				r.Fail(rule, construct, call.Pos(), "%s.Merge hands the other entity's properties to Properties.Merge only under `%s`, which is more than a nil test: an entity that deleted its properties (none left in its map, the keys recorded as deleted) is treated as having nothing to merge, its deletions are not replayed and the receiver keeps keys that the merged entity removed", owner, bad)
+			}
+		}
+	}
+	if n == 0 {
+		r.Note("C12-R11: no entity type with a Merge method found")
+	}
+}
